@@ -343,8 +343,19 @@ template <typename C> struct Filler<C, CF_GUARD> { static void fill(SutView& v, 
 // performing actions, by control flavour
 
 #if SF_PLANS
+SutPlan g_plan_view_a, g_plan_view_b;
+template <typename C>
+void do_plan_action_(C& c, const SutAction& a, Last& last, SutView& v);
 template <typename C>
 void do_plan_action(C& c, const SutAction& a, Last& last, SutView& v) {
+	auto before = static_cast<const C&>(c).plan();          // CPlan: a view, obtained before the edit
+	do_plan_action_(c, a, last, v);
+	auto after = static_cast<const C&>(c).plan();
+	read_plan<true>(g_plan_view_a, before); read_plan<true>(g_plan_view_b, after);
+	if (!same_plan(g_plan_view_a, g_plan_view_b)) last.result = static_cast<uint8_t>(last.result | 0x80);   // stale view
+}
+template <typename C>
+void do_plan_action_(C& c, const SutAction& a, Last& last, SutView& v) {
 	auto p = c.plan();
 	switch (a.kind) {
 	case A_PLAN_APPEND:
@@ -522,18 +533,18 @@ void run_hook(C& c, int method, int cls, int inj, const void* self,
 // one set of callbacks, shared by state classes, injections and the root
 #define SUT_CALLBACKS(CLS, INJ, TMPL)                                                                                   \
 	mutable uint32_t hits_ = 0;   /* user data living in the state object: must be copied with the machine */      \
-	void entryGuard(GuardControl& c) { run_hook<CF_GUARD>(c, M_ENTRY_GUARD, CLS, INJ, this, SUT_INVALID, 0, 0, TMPL(c), ++hits_); }  \
-	void enter     (PlanControl&  c) { run_hook<CF_PLAN >(c, M_ENTER,       CLS, INJ, this, SUT_INVALID, 0, 0, TMPL(c), ++hits_); }  \
+	void entryGuard(GuardControl& c) noexcept { run_hook<CF_GUARD>(c, M_ENTRY_GUARD, CLS, INJ, this, SUT_INVALID, 0, 0, TMPL(c), ++hits_); }  \
+	void enter     (PlanControl&  c) noexcept { run_hook<CF_PLAN >(c, M_ENTER,       CLS, INJ, this, SUT_INVALID, 0, 0, TMPL(c), ++hits_); }  \
 	void reenter   (PlanControl&  c) { run_hook<CF_PLAN >(c, M_REENTER,     CLS, INJ, this, SUT_INVALID, 0, 0, TMPL(c), ++hits_); }  \
 	void preUpdate (FullControl&  c) { run_hook<CF_FULL >(c, M_PRE_UPDATE,  CLS, INJ, this, SUT_INVALID, 0, 0, TMPL(c), ++hits_); }  \
-	void update    (FullControl&  c) { run_hook<CF_FULL >(c, M_UPDATE,      CLS, INJ, this, SUT_INVALID, 0, 0, TMPL(c), ++hits_); }  \
-	void postUpdate(FullControl&  c) { run_hook<CF_FULL >(c, M_POST_UPDATE, CLS, INJ, this, SUT_INVALID, 0, 0, TMPL(c), ++hits_); }  \
+	void update    (FullControl&  c) noexcept { run_hook<CF_FULL >(c, M_UPDATE,      CLS, INJ, this, SUT_INVALID, 0, 0, TMPL(c), ++hits_); }  \
+	void postUpdate(FullControl&  c) noexcept { run_hook<CF_FULL >(c, M_POST_UPDATE, CLS, INJ, this, SUT_INVALID, 0, 0, TMPL(c), ++hits_); }  \
 	template <typename E> void preReact (const E& e, FullControl& c) { run_hook<CF_FULL>(c, M_PRE_REACT,  CLS, INJ, this, EvId<E>::ID, e.v, &e, TMPL(c), ++hits_); } \
 	template <typename E> void react    (const E& e, FullControl& c) { run_hook<CF_FULL>(c, M_REACT,      CLS, INJ, this, EvId<E>::ID, e.v, &e, TMPL(c), ++hits_); } \
 	template <typename E> void postReact(const E& e, FullControl& c) { run_hook<CF_FULL>(c, M_POST_REACT, CLS, INJ, this, EvId<E>::ID, e.v, &e, TMPL(c), ++hits_); } \
 	template <typename E> void query(E& e, ConstControl& c) const    { run_hook<CF_CONST>(c, M_QUERY,     CLS, INJ, this, EvId<E>::ID, e.v, &e, TMPL(c), ++hits_); } \
 	void exitGuard (GuardControl& c) { run_hook<CF_GUARD>(c, M_EXIT_GUARD,  CLS, INJ, this, SUT_INVALID, 0, 0, TMPL(c), ++hits_); }  \
-	void exit      (PlanControl&  c) { run_hook<CF_PLAN >(c, M_EXIT,        CLS, INJ, this, SUT_INVALID, 0, 0, TMPL(c), ++hits_); }
+	void exit      (PlanControl&  c) noexcept { run_hook<CF_PLAN >(c, M_EXIT,        CLS, INJ, this, SUT_INVALID, 0, 0, TMPL(c), ++hits_); }
 
 #define SUT_PLAN_CALLBACKS(CLS, INJ, TMPL)                                                                              \
 	void planSucceeded(FullControl& c) { run_hook<CF_FULL>(c, M_PLAN_SUCCEEDED, CLS, INJ, this, SUT_INVALID, 0, 0, TMPL(c), ++hits_); } \
@@ -546,9 +557,27 @@ void run_hook(C& c, int method, int cls, int inj, const void* self,
 //------------------------------------------------------------------------------------------------
 // state classes
 
+// Injections declare some callbacks virtual (a user is free to): the engine must still call each class's own version
+// exactly once, i.e. with qualified, non-virtual calls.
 template <unsigned I, unsigned J>
 struct Inj : FSM::State {
-	SUT_CALLBACKS(I, J, TMPL_NONE)
+	mutable uint32_t hits_ = 0;
+	virtual ~Inj() {}
+	Inj() {}
+	Inj(const Inj& o) : FSM::State(o), hits_(o.hits_) {}
+	Inj& operator = (const Inj& o) { hits_ = o.hits_; return *this; }
+	virtual void entryGuard(typename FSM::GuardControl& c) noexcept { run_hook<CF_GUARD>(c, M_ENTRY_GUARD, I, J, this, SUT_INVALID, 0, 0, 1, ++hits_); }
+	virtual void enter     (typename FSM::State::PlanControl&  c) noexcept { run_hook<CF_PLAN >(c, M_ENTER,       I, J, this, SUT_INVALID, 0, 0, 1, ++hits_); }
+	void reenter   (typename FSM::State::PlanControl&  c) { run_hook<CF_PLAN >(c, M_REENTER,     I, J, this, SUT_INVALID, 0, 0, 1, ++hits_); }
+	void preUpdate (typename FSM::FullControl&  c) { run_hook<CF_FULL >(c, M_PRE_UPDATE,  I, J, this, SUT_INVALID, 0, 0, 1, ++hits_); }
+	virtual void update    (typename FSM::FullControl&  c) noexcept { run_hook<CF_FULL >(c, M_UPDATE,      I, J, this, SUT_INVALID, 0, 0, 1, ++hits_); }
+	virtual void postUpdate(typename FSM::FullControl&  c) noexcept { run_hook<CF_FULL >(c, M_POST_UPDATE, I, J, this, SUT_INVALID, 0, 0, 1, ++hits_); }
+	template <typename E> void preReact (const E& e, typename FSM::FullControl& c) { run_hook<CF_FULL>(c, M_PRE_REACT,  I, J, this, EvId<E>::ID, e.v, &e, 1, ++hits_); }
+	template <typename E> void react    (const E& e, typename FSM::FullControl& c) { run_hook<CF_FULL>(c, M_REACT,      I, J, this, EvId<E>::ID, e.v, &e, 1, ++hits_); }
+	template <typename E> void postReact(const E& e, typename FSM::FullControl& c) { run_hook<CF_FULL>(c, M_POST_REACT, I, J, this, EvId<E>::ID, e.v, &e, 1, ++hits_); }
+	template <typename E> void query(E& e, typename FSM::ConstControl& c) const    { run_hook<CF_CONST>(c, M_QUERY,     I, J, this, EvId<E>::ID, e.v, &e, 1, ++hits_); }
+	void exitGuard (typename FSM::GuardControl& c) { run_hook<CF_GUARD>(c, M_EXIT_GUARD,  I, J, this, SUT_INVALID, 0, 0, 1, ++hits_); }
+	virtual void exit      (typename FSM::State::PlanControl&  c) noexcept { run_hook<CF_PLAN >(c, M_EXIT,        I, J, this, SUT_INVALID, 0, 0, 1, ++hits_); }
 };
 
 template <unsigned I, int K> struct StBase;
@@ -576,11 +605,11 @@ template <unsigned I> struct StBase<I, K_INJ3> : FSM::StateT<Inj<I, 1>, Inj<I, 2
 };
 template <unsigned I> struct StBase<I, K_PARTIAL> : FSM::State {
 	mutable uint32_t hits_ = 0;
-	void entryGuard(GuardControl& c) { run_hook<CF_GUARD>(c, M_ENTRY_GUARD, I, 0, this, SUT_INVALID, 0, 0, TMPL_STATE(c), ++hits_); }
-	void enter     (PlanControl&  c) { run_hook<CF_PLAN >(c, M_ENTER,       I, 0, this, SUT_INVALID, 0, 0, TMPL_STATE(c), ++hits_); }
-	void update    (FullControl&  c) { run_hook<CF_FULL >(c, M_UPDATE,      I, 0, this, SUT_INVALID, 0, 0, TMPL_STATE(c), ++hits_); }
+	void entryGuard(GuardControl& c) noexcept { run_hook<CF_GUARD>(c, M_ENTRY_GUARD, I, 0, this, SUT_INVALID, 0, 0, TMPL_STATE(c), ++hits_); }
+	void enter     (PlanControl&  c) noexcept { run_hook<CF_PLAN >(c, M_ENTER,       I, 0, this, SUT_INVALID, 0, 0, TMPL_STATE(c), ++hits_); }
+	void update    (FullControl&  c) noexcept { run_hook<CF_FULL >(c, M_UPDATE,      I, 0, this, SUT_INVALID, 0, 0, TMPL_STATE(c), ++hits_); }
 	template <typename E> void postReact(const E& e, FullControl& c) { run_hook<CF_FULL>(c, M_POST_REACT, I, 0, this, EvId<E>::ID, e.v, &e, TMPL_STATE(c), ++hits_); }
-	void exit      (PlanControl&  c) { run_hook<CF_PLAN >(c, M_EXIT,        I, 0, this, SUT_INVALID, 0, 0, TMPL_STATE(c), ++hits_); }
+	void exit      (PlanControl&  c) noexcept { run_hook<CF_PLAN >(c, M_EXIT,        I, 0, this, SUT_INVALID, 0, 0, TMPL_STATE(c), ++hits_); }
 };
 
 template <unsigned I> struct StBase<I, K_PARTIAL2> : FSM::State {
@@ -616,11 +645,11 @@ struct R : FSM::StateT<Inj<SUT_INVALID, 1> > {
 #elif SUT_ROOT_KIND == 5
 struct R : FSM::State {
 	mutable uint32_t hits_ = 0;
-	void entryGuard(GuardControl& c) { run_hook<CF_GUARD>(c, M_ENTRY_GUARD, SUT_INVALID, 0, this, SUT_INVALID, 0, 0, TMPL_ROOT(c), ++hits_); }
-	void enter     (PlanControl&  c) { run_hook<CF_PLAN >(c, M_ENTER,       SUT_INVALID, 0, this, SUT_INVALID, 0, 0, TMPL_ROOT(c), ++hits_); }
-	void update    (FullControl&  c) { run_hook<CF_FULL >(c, M_UPDATE,      SUT_INVALID, 0, this, SUT_INVALID, 0, 0, TMPL_ROOT(c), ++hits_); }
+	void entryGuard(GuardControl& c) noexcept { run_hook<CF_GUARD>(c, M_ENTRY_GUARD, SUT_INVALID, 0, this, SUT_INVALID, 0, 0, TMPL_ROOT(c), ++hits_); }
+	void enter     (PlanControl&  c) noexcept { run_hook<CF_PLAN >(c, M_ENTER,       SUT_INVALID, 0, this, SUT_INVALID, 0, 0, TMPL_ROOT(c), ++hits_); }
+	void update    (FullControl&  c) noexcept { run_hook<CF_FULL >(c, M_UPDATE,      SUT_INVALID, 0, this, SUT_INVALID, 0, 0, TMPL_ROOT(c), ++hits_); }
 	template <typename E> void postReact(const E& e, FullControl& c) { run_hook<CF_FULL>(c, M_POST_REACT, SUT_INVALID, 0, this, EvId<E>::ID, e.v, &e, TMPL_ROOT(c), ++hits_); }
-	void exit      (PlanControl&  c) { run_hook<CF_PLAN >(c, M_EXIT,        SUT_INVALID, 0, this, SUT_INVALID, 0, 0, TMPL_ROOT(c), ++hits_); }
+	void exit      (PlanControl&  c) noexcept { run_hook<CF_PLAN >(c, M_EXIT,        SUT_INVALID, 0, this, SUT_INVALID, 0, 0, TMPL_ROOT(c), ++hits_); }
 #if SF_PLANS
 	void planFailed(FullControl&  c) { run_hook<CF_FULL >(c, M_PLAN_FAILED, SUT_INVALID, 0, this, SUT_INVALID, 0, 0, TMPL_ROOT(c), ++hits_); }
 #endif
